@@ -15,7 +15,7 @@ func init() { Monitors["C10"] = runC10 }
 
 type ctxKeyT string
 
-var dirtyActions = []string{"set", "adderror", "replace-resp", "replace-req", "abort", "status", "write", "params", "sethandlers-noop", "header", "retain", "params-inplace", "query-mutate", "render-fail", "render-ok", "allowed-inplace"}
+var dirtyActions = []string{"set", "adderror", "replace-resp", "replace-req", "abort", "status", "write", "params", "sethandlers-noop", "header", "retain", "params-inplace", "query-mutate", "render-fail", "render-ok", "allowed-inplace", "redispatch"}
 
 // c10Renderer writes part of the page and then fails when asked to.
 type c10Renderer struct{}
@@ -94,6 +94,11 @@ func dirtyContext(c *rux.Context, rec *Rec, actions []string) {
 					c.Set(rux.CTXAllowedMethods, list[:0])
 				}
 			}
+		case "redispatch":
+			// internal redirect: the handler has the router dispatch this request once more
+			// (the arming header is removed first, so the second dispatch is a plain one)
+			c.Req.Header.Del("X-Dirty")
+			c.Router().HandleContext(c)
 		case "query-mutate":
 			// the handler edits the parsed query values it was given
 			q := c.QueryValues()
